@@ -1,5 +1,7 @@
 import GoguVerif.Lemmas.C20
 import GoguVerif.Lemmas.C20T
+import GoguVerif.Lemmas.C20T2
+import GoguVerif.Lemmas.C20L
 /-!
 # C20 — property theorems (Delay, debounce and throttle never fire early or more often than allowed)
 
@@ -8,7 +10,7 @@ every wait / duration, every history of events (calls, cancels, `Next` calls, pa
 length) and — for the throttle — every choice of which blocked caller wins a wake-up.
 -/
 namespace GoguVerif.Theorems.C20
-open GoguVerif.Spec.C20 GoguVerif.Model.C20 GoguVerif.Lemmas.C20 GoguVerif.Lemmas.C20T
+open GoguVerif.Spec.C20 GoguVerif.Model.C20 GoguVerif.Lemmas.C20 GoguVerif.Lemmas.C20T GoguVerif.Lemmas.C20T2 GoguVerif.Lemmas.C20L
 
 /-! ## Debounce -/
 
@@ -461,6 +463,138 @@ example : (trun ⟨50, true⟩ (fun _ _ => 0) [.next 0, .advance 3, .cancel, .ne
 example : (trun ⟨50, false⟩ (fun _ _ => 0) [.call, .next 0, .advance 7]).last = some 0 ∧
     (trun ⟨50, false⟩ (fun _ _ => 0) [.call, .next 0, .advance 7]).now - 0 ≤ 50 := by decide
 
+/-! ## Throttle: one permission per step, triggers as positions of the history -/
+
+theorem trun_snoc (cfg : TCfg) (ch : Choice) (evs : List TEv) (e : TEv) :
+    trun cfg ch (evs ++ [e]) = tstep cfg ch (trun cfg ch evs) e := by
+  simp [trun, List.foldl_append]
+
+/-- **A step hands out at most one permission**: whatever the event (a `Call` that wakes a blocked
+caller, a `Next` that finds a permission waiting, time passing over the trailing timer's deadline)
+and however many callers are blocked, the permissions after the step are those before it plus at
+most one. -/
+theorem throttle_step_one_permission (cfg : TCfg) (ch : Choice) (evs : List TEv) (e : TEv) :
+    ∃ ext, (trun cfg ch (evs ++ [e])).grants = (trun cfg ch evs).grants ++ ext ∧ ext.length ≤ 1 := by
+  rw [trun_snoc]
+  exact (tstep_frame ch e (trun_inv cfg ch evs)).1
+
+theorem tclock_append (a b : List TEv) : tclock (a ++ b) = tclock a + tclock b := by
+  induction a with
+  | nil => simp [tclock]
+  | cons e r ih => simp only [List.cons_append, tclock, ih]; omega
+
+theorem tfold_now (cfg : TCfg) (ch : Choice) : ∀ (evs : List TEv) (s : TState), TInv cfg s →
+    (evs.foldl (tstep cfg ch) s).now = s.now + tclock evs := by
+  intro evs
+  induction evs with
+  | nil => intro s _; simp [tclock]
+  | cons e r ih =>
+    intro s h
+    rw [List.foldl_cons, ih _ (tstep_inv ch e h), (tstep_frame ch e h).2.2]
+    simp only [tclock]; omega
+
+/-- the model's clock is the history's clock -/
+theorem trun_now (cfg : TCfg) (ch : Choice) (evs : List TEv) : (trun cfg ch evs).now = tclock evs := by
+  have := tfold_now cfg ch evs {} (tinv_init cfg)
+  simpa [trun] using this
+
+theorem tfold_grants_prefix (cfg : TCfg) (ch : Choice) : ∀ (evs : List TEv) (s : TState), TInv cfg s →
+    s.grants <+: (evs.foldl (tstep cfg ch) s).grants := by
+  intro evs
+  induction evs with
+  | nil => intro s _; exact List.prefix_refl _
+  | cons e r ih =>
+    intro s h
+    obtain ⟨ext, he, _⟩ := (tstep_frame ch e h).1
+    exact List.IsPrefix.trans ⟨ext, he.symm⟩ (ih _ (tstep_inv ch e h))
+
+/-- permissions are never taken back: the permissions after a prefix of the history are a prefix of
+the permissions after the whole history -/
+theorem trun_grants_prefix (cfg : TCfg) (ch : Choice) (evs : List TEv) (p : Nat) :
+    (trun cfg ch (evs.take p)).grants <+: (trun cfg ch evs).grants := by
+  have h := tfold_grants_prefix cfg ch (evs.drop p) (trun cfg ch (evs.take p)) (trun_inv cfg ch _)
+  have : (evs.drop p).foldl (tstep cfg ch) (trun cfg ch (evs.take p)) = trun cfg ch evs := by
+    unfold trun
+    rw [← List.foldl_append, List.take_append_drop]
+  rw [this] at h
+  exact h
+
+theorem trun_take_succ (cfg : TCfg) (ch : Choice) (evs : List TEv) (n : Nat) (x : TEv)
+    (h : evs[n]? = some x) :
+    trun cfg ch (evs.take (n + 1)) = tstep cfg ch (trun cfg ch (evs.take n)) x := by
+  rw [List.take_add_one, h]
+  exact trun_snoc cfg ch _ x
+
+/-- **The ghost trigger log describes the history**: every logged trigger `(t, e)` is a `call` event
+at some position `p` of the history, `t` is the instant of that event and `e` the number of
+permissions handed out by the events before it. -/
+theorem calls_positions (cfg : TCfg) (ch : Choice) (evs : List TEv) :
+    ∀ n, ∀ c ∈ (trun cfg ch (evs.take n)).calls,
+      ∃ p, p < n ∧ evs[p]? = some TEv.call ∧ c.1 = tclock (evs.take p) ∧
+        c.2 = (trun cfg ch (evs.take p)).grants.length := by
+  intro n
+  induction n with
+  | zero => intro c hc; simp [trun] at hc
+  | succ n ih =>
+    intro c hc
+    cases hx : evs[n]? with
+    | none =>
+      have hlen : evs.length ≤ n := by
+        rcases Nat.lt_or_ge n evs.length with h | h
+        · have := List.getElem?_eq_getElem h; rw [hx] at this; cases this
+        · exact h
+      rw [List.take_of_length_le (by omega)] at hc
+      rw [← List.take_of_length_le hlen] at hc
+      obtain ⟨p, hp, h⟩ := ih c hc
+      exact ⟨p, by omega, h⟩
+    | some x =>
+      rw [trun_take_succ cfg ch evs n x hx,
+        (tstep_frame ch x (trun_inv cfg ch (evs.take n))).2.1, List.mem_append] at hc
+      rcases hc with hc | hc
+      · obtain ⟨p, hp, h⟩ := ih c hc
+        exact ⟨p, by omega, h⟩
+      · cases x with
+        | call =>
+          simp only [logOf, List.mem_singleton] at hc
+          subst hc
+          exact ⟨n, by omega, hx, trun_now cfg ch _, rfl⟩
+        | cancel => simp [logOf] at hc
+        | next id => simp [logOf] at hc
+        | advance dt => simp [logOf] at hc
+
+/-- **The trigger of the `k`-th permission is a `call` event of the history, after the previous
+permission and not after this one.**  For the `k`-th permission `g` (0-based) there is a position
+`p` with `evs[p] = call`, happening at the instant `g.ctime ≤ g.t`, such that
+* the events before `p` have handed out exactly the permissions `0 … k-1` (so the `(k-1)`-th
+  permission precedes the trigger), and
+* no event before `p` has handed out the `k`-th permission (the trigger is not after it);
+when not trailing the trigger came after the previous period had ended. -/
+theorem throttle_trigger_position (cfg : TCfg) (ch : Choice) (evs : List TEv) (k : Nat) (g : Grant)
+    (hg : (trun cfg ch evs).grants[k]? = some g) :
+    ∃ p, evs[p]? = some TEv.call ∧ tclock (evs.take p) = g.ctime ∧ g.ctime ≤ g.t ∧
+      (trun cfg ch (evs.take p)).grants = (trun cfg ch evs).grants.take k ∧
+      (∀ q, q ≤ p → (trun cfg ch (evs.take q)).grants.length ≤ k) ∧
+      (cfg.trailing = false → ∀ k' g', k = k' + 1 → (trun cfg ch evs).grants[k']? = some g' →
+        g'.t + cfg.dur < g.ctime) := by
+  obtain ⟨hmem, hle, hnt⟩ := throttle_triggered cfg ch evs k g hg
+  have hfull : evs.take evs.length = evs := List.take_of_length_le (Nat.le_refl _)
+  rw [← hfull] at hmem
+  obtain ⟨p, _, hcall, ht, hk⟩ := calls_positions cfg ch evs evs.length _ hmem
+  refine ⟨p, hcall, ht.symm, hle, ?_, ?_, hnt⟩
+  · obtain ⟨ext, he⟩ := trun_grants_prefix cfg ch evs p
+    rw [← he, List.take_append_of_le_length (by simp at hk; omega)]
+    exact (List.take_of_length_le (by simp at hk; omega)).symm
+  · intro q hq
+    have h1 := trun_grants_prefix cfg ch (evs.take p) q
+    rw [List.take_take, Nat.min_eq_left hq] at h1
+    have := h1.length_le
+    simp at hk
+    omega
+
+example : ∃ ext, (trun ⟨50, true⟩ (fun _ _ => 0) ([.next 0, .next 1] ++ [.call])).grants =
+    (trun ⟨50, true⟩ (fun _ _ => 0) [.next 0, .next 1]).grants ++ ext ∧ ext.length ≤ 1 :=
+  throttle_step_one_permission _ _ _ _
+
 /-! ## Delay -/
 
 /-- every pending timer's deadline and every execution's instant is `callTime + max d 0` -/
@@ -524,5 +658,700 @@ theorem delay_never_early (evs : List LEv) :
 
 example : ((lrun [.delay 5, .delay (-3), .advance 4, .stop 0, .delay 2, .advance 10]).fired.map
     fun fr => (fr.f, fr.id, fr.tc)) = [(0, 1, 0), (6, 2, 4)] := by decide
+
+/-! ### Delay: the specification `DelayOK`, at most once, not after a successful stop, completeness
+
+`cnt (evs.take i)` — the number of `delay` events before position `i` — is the timer id handed out by
+the `delay` event at position `i`. -/
+
+/-- **Every execution satisfies the specification `DelayOK`**: it belongs to a `delay d` event `i` at
+instant `tc`, runs no earlier than `tc + d` (exactly at `tc + max d 0`, by `delay_never_early`), and
+every `stop` of its timer that comes after the `delay` happens at or after the instant of the
+execution (no stop before it ran). -/
+theorem delay_ok (evs : List LEv) :
+    ∀ fr ∈ (lrun evs).fired,
+      DelayOK evs (fun i => cnt (evs.take i)) fr.f fr.idx fr.tc ∧ fr.id = cnt (evs.take fr.idx) ∧
+      fr.f ≤ lclock evs := by
+  intro fr hfr
+  have hI := lrun_invh evs
+  have h := hI.fired fr hfr
+  refine ⟨⟨⟨fr.d, h.isDelay, by have := h.exact; omega⟩, h.callTime, ?_⟩, h.id_eq, by rw [← hI.now_eq]; exact h.le_now⟩
+  intro k hk hx
+  exact h.nostop k hk (by rw [h.id_eq]; exact hx)
+
+/-- **At most one run per `Delay` call**: at most one execution belongs to the event at position `i` -/
+theorem delay_at_most_once (evs : List LEv) (i : Nat) : firedAt i (lrun evs).fired ≤ 1 := by
+  have := (lrun_invh evs).once i
+  omega
+
+/-- **No run after a successful stop**: if the timer `t` is still pending after the first `k` events
+and event `k` is `stop t.id`, the callback of that `Delay` call never runs, whatever follows. -/
+theorem delay_no_run_after_stop (evs : List LEv) (k : Nat) (t : LPending)
+    (ht : t ∈ (lrun (evs.take k)).timers) (hx : evs[k]? = some (LEv.stop t.id)) :
+    ∀ fr ∈ (lrun evs).fired, fr.idx ≠ t.idx := by
+  intro fr hfr heq
+  have hP := lrun_invh (evs.take k)
+  obtain ⟨⟨hT, _⟩, hlt⟩ := hP.timers t ht
+  have hF := (lrun_invh evs).fired fr hfr
+  have hik : t.idx < k := by have := hT.idx_lt; simp at this; omega
+  have hd : fr.d = t.d := by
+    have h1 := hT.isDelay
+    rw [List.getElem?_take, if_pos hik] at h1
+    have h2 := hF.isDelay
+    rw [heq, h1] at h2
+    simp only [Option.some.injEq, LEv.delay.injEq] at h2
+    exact h2.symm
+  have htake : (evs.take k).take t.idx = evs.take t.idx := by
+    rw [List.take_take, Nat.min_eq_left (by omega)]
+  have htc : fr.tc = t.tc := by
+    have h1 := hT.callTime
+    rw [htake] at h1
+    have h2 := hF.callTime
+    rw [heq, h1] at h2
+    exact h2.symm
+  have hid : fr.id = t.id := by
+    rw [hF.id_eq, hT.id_eq, htake, heq]
+  have hstop := hF.nostop k (by omega) (by rw [hid]; exact hx)
+  have hf := hF.exact
+  have hdl := hT.exact
+  rw [hP.now_eq] at hlt
+  rw [hd, htc] at hf
+  omega
+
+/-- **Completeness.**  If the `delay d` event at position `i` is not stopped before its deadline
+`tc + max d 0` (every `stop` of its timer comes at or after the deadline) and the clock has reached
+the deadline, the callback has run exactly once, at the deadline. -/
+theorem delay_completeness (evs : List LEv) (i : Nat) (d : Int) (hx : evs[i]? = some (LEv.delay d))
+    (hns : ∀ k, i < k → evs[k]? = some (LEv.stop (cnt (evs.take i))) →
+      lclock (evs.take i) + max d 0 ≤ lclock (evs.take k))
+    (hlong : lclock (evs.take i) + max d 0 ≤ lclock evs) :
+    firedAt i (lrun evs).fired = 1 ∧
+    ∃ fr ∈ (lrun evs).fired, fr.idx = i ∧ fr.f = lclock (evs.take i) + max d 0 := by
+  have hI := lrun_invh evs
+  have hex : ∃ fr ∈ (lrun evs).fired, fr.idx = i := by
+    rcases hI.served i d hx with ⟨t, ht, hti⟩ | hfr | ⟨k, hk, hxk, hlt⟩
+    · exfalso
+      obtain ⟨⟨hT, _⟩, hlt⟩ := hI.timers t ht
+      have hd : t.d = d := by
+        have := hT.isDelay; rw [hti, hx] at this; cases this; rfl
+      have h1 := hT.callTime
+      have h2 := hT.exact
+      rw [hti] at h1
+      rw [hI.now_eq] at hlt
+      rw [hd] at h2
+      omega
+    · exact hfr
+    · exfalso
+      have := hns k hk hxk
+      omega
+  obtain ⟨fr, hfr, hi⟩ := hex
+  have hF := hI.fired fr hfr
+  constructor
+  · have h1 := delay_at_most_once evs i
+    have h2 : 0 < firedAt i (lrun evs).fired :=
+      List.countP_pos_iff.mpr ⟨fr, hfr, by simp [hi]⟩
+    omega
+  · refine ⟨fr, hfr, hi, ?_⟩
+    have hd : fr.d = d := by
+      have := hF.isDelay; rw [hi, hx] at this; cases this; rfl
+    have h1 := hF.callTime
+    have h2 := hF.exact
+    rw [hi] at h1
+    rw [hd] at h2
+    omega
+
+example : (lrun ([LEv.delay 5, .advance 4].take 1)).timers.map (·.id) = [0] ∧
+    (lrun [.delay 5, .stop 0, .advance 10]).fired = [] := by decide
+example : firedAt 0 (lrun [.delay 5, .advance 4, .advance 1]).fired = 1 := by decide
+
+/-! ## The monitors accept the models
+
+`DMon` (the decidable monitor that judges the implementation's trace in the driver) is run alongside
+the model: after every event the monitor is told the event, and at arbitrary points (`true` flags) it
+is shown the model's execution log, exactly as the driver shows it the implementation's log.  For
+every history and every choice of observation points the monitor reports no violation. -/
+
+/-- the model's execution log in the monitor's format (fireTime, position, callTime) -/
+def dlog (s : DState) : List (Int × Nat × Int) := s.fired.map fun fr => (fr.f, fr.idx, fr.tc)
+
+/-- monitor and model side by side; the flag says whether `fired` is observed after the event -/
+def dmonRun (wait : Nat) : List (DEv × Bool) → DMon → DState → Option String
+  | [], _, _ => none
+  | (e, o) :: r, m, s =>
+    if o then
+      match (m.push e).onFired (dlog (dstep wait s e)) with
+      | (some c, _) => some c
+      | (none, m2) => dmonRun wait r m2 (dstep wait s e)
+    else dmonRun wait r (m.push e) (dstep wait s e)
+
+theorem dstep_fired_prefix (wait : Nat) (s : DState) (e : DEv) : s.fired <+: (dstep wait s e).fired := by
+  rw [dstep_eq]
+  have hd : (dpre wait s e).fired = s.fired := by cases e <;> rfl
+  unfold DState.settle
+  cases hp : (dpre wait s e).pending with
+  | none => simp only; rw [hd]; exact List.prefix_refl _
+  | some p =>
+    simp only
+    by_cases hdl : p.deadline ≤ (dpre wait s e).now
+    · rw [if_pos hdl]; rw [hd]; exact List.prefix_append _ _
+    · rw [if_neg hdl]; rw [hd]; exact List.prefix_refl _
+
+/-- what the monitor checks of one log entry -/
+structure EntryOK (wait : Nat) (hist : List DEv) (x : Int × Nat × Int) : Prop where
+  le_now : x.1 ≤ clock hist
+  isCall : hist[x.2.1]? = some DEv.call
+  callTime : clock (hist.take x.2.1) = x.2.2
+  notEarly : x.2.2 + wait ≤ x.1
+  ok : fireOKb wait hist x.1 x.2.1 x.2.2 = true
+
+theorem dlog_entry_ok (wait : Nat) (hist : List DEv) :
+    ∀ x ∈ dlog (drun wait hist), EntryOK wait hist x := by
+  intro x hx
+  simp only [dlog, List.mem_map] at hx
+  obtain ⟨fr, hfr, rfl⟩ := hx
+  have h := (drun_inv wait hist).fired fr hfr
+  have hok := debounce_fire_ok wait hist fr hfr
+  refine ⟨?_, h.isCall, h.callTime, by have := h.exact; show fr.tc + wait ≤ fr.f; omega,
+    (fireOKb_iff wait hist fr.f fr.idx fr.tc).mpr hok⟩
+  have := h.fired_by
+  have := clock_take_le hist (fr.at + 1)
+  show fr.f ≤ clock hist
+  omega
+
+theorem dlog_sorted (wait : Nat) (hist : List DEv) :
+    (dlog (drun wait hist)).Pairwise (fun a b => a.2.1 < b.2.1) := by
+  simp only [dlog, List.pairwise_map]
+  exact (drun_inv wait hist).sorted
+
+theorem chk_accepts (m : DMon) (hist : List DEv) (hnow : m.now = clock hist) :
+    ∀ (extra old : List (Int × Nat × Int)), (∀ x ∈ extra, EntryOK m.wait hist x) →
+      (old ++ extra).Pairwise (fun a b => a.2.1 < b.2.1) →
+      DMon.onFired.chk m hist old extra = none := by
+  intro extra
+  induction extra with
+  | nil => intro old _ _; rfl
+  | cons x r ih =>
+    intro old hok hsorted
+    obtain ⟨f, i, tc⟩ := x
+    have hx := hok (f, i, tc) (by simp)
+    have h1 : (old.any fun o => o.2.1 == i) = false := by
+      rw [List.any_eq_false]
+      intro o ho
+      have := (List.pairwise_append.mp hsorted).2.2 o ho (f, i, tc) (by simp)
+      simp at this ⊢; omega
+    have h2 : ¬ (f > m.now) := by have := hx.le_now; simp at this; omega
+    have h3 : (hist[i]? != some DEv.call || clock (hist.take i) != tc) = false := by
+      have a := hx.isCall; have b := hx.callTime
+      simp at a b
+      simp [a, b]
+    have h4 : ¬ (f < tc + m.wait) := by have := hx.notEarly; simp at this; omega
+    have h5 : (!(fireOKb m.wait hist f i tc)) = false := by
+      have := hx.ok; simp at this; simp [this]
+    rw [DMon.onFired.chk]
+    simp only [h1, h2, h3, h4, h5, Bool.false_eq_true, if_false]
+    exact ih (old ++ [(f, i, tc)]) (fun y hy => hok y (by simp [hy]))
+      (by simpa [List.append_assoc] using hsorted)
+
+/-- monitor and model are in step after the history `hist` -/
+structure Sync (wait : Nat) (hist : List DEv) (m : DMon) (s : DState) : Prop where
+  model : s = drun wait hist
+  wait_eq : m.wait = wait
+  rev_eq : m.rev = hist.reverse
+  len_eq : m.len = hist.length
+  now_eq : m.now = clock hist
+  seen : m.seen <+: dlog s
+  lastNA : ∀ i tc, m.lastNA = some (i, true, tc) → Served (tc + wait) i tc s
+
+theorem sync_init (wait : Nat) : Sync wait [] { wait := wait } {} where
+  model := rfl
+  wait_eq := rfl
+  rev_eq := rfl
+  len_eq := rfl
+  now_eq := rfl
+  seen := List.prefix_refl _
+  lastNA := by intro i tc h; cases h
+
+theorem sync_push {wait hist m s} (e : DEv) (h : Sync wait hist m s) :
+    Sync wait (hist ++ [e]) (m.push e) (dstep wait s e) where
+  model := by rw [h.model]; simp [drun, List.foldl_append]
+  wait_eq := h.wait_eq
+  rev_eq := by simp [DMon.push, h.rev_eq]
+  len_eq := by simp [DMon.push, h.len_eq]
+  now_eq := by simp [DMon.push, h.now_eq, clock_snoc]
+  seen := by
+    have h1 : dlog s <+: dlog (dstep wait s e) := by
+      obtain ⟨ext, he⟩ := dstep_fired_prefix wait s e
+      exact ⟨ext.map fun fr => (fr.f, fr.idx, fr.tc), by simp [dlog, ← he]⟩
+    exact List.IsPrefix.trans h.seen h1
+  lastNA := by
+    intro i tc hl
+    have hinv := drun_inv wait hist
+    rw [← h.model] at hinv
+    cases e with
+    | call =>
+      simp only [DMon.push, DEv.isAdvance, Bool.false_eq_true, if_false, Option.some.injEq, Prod.mk.injEq] at hl
+      obtain ⟨rfl, _, rfl⟩ := hl
+      rw [dstep_eq]
+      apply served_settle
+      right
+      simp [dpre, hinv.n_eq, hinv.now_eq, h.len_eq, h.now_eq]
+    | cancel =>
+      simp [DMon.push, DEv.isAdvance] at hl
+    | advance dt =>
+      simp only [DMon.push, DEv.isAdvance, if_true] at hl
+      exact served_advance wait _ i tc s dt (h.lastNA i tc hl)
+
+theorem onFired_accepts {wait hist m s} (h : Sync wait hist m s) :
+    (m.onFired (dlog s)).1 = none ∧ Sync wait hist (m.onFired (dlog s)).2 s := by
+  have hseen : (dlog s).take m.seen.length = m.seen := (List.prefix_iff_eq_take.mp h.seen).symm
+  have hsplit : m.seen ++ (dlog s).drop m.seen.length = dlog s := by
+    have := List.take_append_drop m.seen.length (dlog s)
+    rw [hseen] at this; exact this
+  have hentries : ∀ x ∈ (dlog s).drop m.seen.length, EntryOK m.wait hist x := by
+    intro x hx
+    rw [h.wait_eq]
+    exact dlog_entry_ok wait hist x (by rw [← h.model]; exact List.mem_of_mem_drop hx)
+  have hsorted : (m.seen ++ (dlog s).drop m.seen.length).Pairwise (fun a b => a.2.1 < b.2.1) := by
+    rw [hsplit, h.model]; exact dlog_sorted wait hist
+  have hchk : ∀ evs, (((dlog s).drop m.seen.length).isEmpty = false → evs = hist) →
+      DMon.onFired.chk m evs m.seen ((dlog s).drop m.seen.length) = none := by
+    intro evs hev
+    cases hd : (dlog s).drop m.seen.length with
+    | nil => rfl
+    | cons x r =>
+      rw [hd] at hev hentries hsorted
+      rw [hev rfl]
+      exact chk_accepts m hist h.now_eq _ _ hentries hsorted
+  have hsync : Sync wait hist { m with seen := dlog s } s :=
+    { model := h.model, wait_eq := h.wait_eq, rev_eq := h.rev_eq, len_eq := h.len_eq, now_eq := h.now_eq,
+      seen := List.prefix_refl _, lastNA := h.lastNA }
+  unfold DMon.onFired
+  have hne : ((dlog s).take m.seen.length != m.seen) = false := by simp [hseen]
+  simp only [hne, Bool.false_eq_true, if_false]
+  rw [hchk _ (by intro hne'; simp [hne', h.rev_eq])]
+  simp only
+  rcases hl : m.lastNA with _ | ⟨i, b, tc⟩
+  · rw [hl] at hsync; exact ⟨rfl, hsync⟩
+  · rw [hl] at hsync
+    cases b with
+    | false => exact ⟨rfl, hsync⟩
+    | true =>
+      simp only
+      have hserved := h.lastNA i tc hl
+      have hcond : (decide (tc + (m.wait : Int) ≤ m.now) && !((dlog s).any fun o => o.2.1 == i)) = false := by
+        by_cases hle : tc + (m.wait : Int) ≤ m.now
+        · rcases hserved with ⟨fr, hfr, hi, _⟩ | ⟨_, hlt⟩
+          · have : ((dlog s).any fun o => o.2.1 == i) = true := by
+              rw [List.any_eq_true]
+              exact ⟨(fr.f, fr.idx, fr.tc), by simp only [dlog, List.mem_map]; exact ⟨fr, hfr, rfl⟩, by simp [hi]⟩
+            simp [this]
+          · exfalso
+            have hinv := drun_inv wait hist
+            rw [← h.model] at hinv
+            rw [h.wait_eq, h.now_eq, ← hinv.now_eq] at hle
+            omega
+        · simp [hle]
+      rw [if_neg (by rw [hcond]; simp)]
+      exact ⟨rfl, hsync⟩
+
+theorem dmonRun_accepts (wait : Nat) : ∀ (tr : List (DEv × Bool)) (hist : List DEv) (m : DMon) (s : DState),
+    Sync wait hist m s → dmonRun wait tr m s = none := by
+  intro tr
+  induction tr with
+  | nil => intro hist m s _; rfl
+  | cons x r ih =>
+    intro hist m s h
+    obtain ⟨e, o⟩ := x
+    have hp := sync_push e h
+    cases o with
+    | false =>
+      simp only [dmonRun, Bool.false_eq_true, if_false]
+      exact ih _ _ _ hp
+    | true =>
+      obtain ⟨h1, h2⟩ := onFired_accepts hp
+      simp only [dmonRun, if_true]
+      rcases hr : (m.push e).onFired (dlog (dstep wait s e)) with ⟨c, m2⟩
+      rw [hr] at h1 h2
+      simp only at h1 h2
+      subst h1
+      simp only
+      exact ih _ _ _ h2
+
+/-- **The debounce monitor accepts the model**: for every wait, every history and every choice of
+observation points, `DMon` — fed the events and shown the model's execution log — reports no
+violated clause (`log-grows-only`, `at-most-once-per-burst`, `fire-time-in-the-future`,
+`belongs-to-a-call`, `never-early`, `most-recent-call-and-none-after-cancel`, `does-run`). -/
+theorem dmon_accepts_model (wait : Nat) (tr : List (DEv × Bool)) :
+    dmonRun wait tr { wait := wait } {} = none :=
+  dmonRun_accepts wait tr [] _ _ (sync_init wait)
+
+example : dmonRun 10 [(.call, true), (.advance 4, true), (.call, false), (.advance 10, true), (.cancel, true)]
+    { wait := 10 } {} = none := by decide
+
+/-! ### The delay monitor accepts the model -/
+
+/-- the model's execution log in the monitor's format (fireTime, timer id, callTime), in firing order
+(the driver sorts it by (time, id); every check of `LMon.onFired` is insensitive to the order) -/
+def llog (s : LState) : List (Int × Nat × Int) := s.fired.map fun fr => (fr.f, fr.id, fr.tc)
+
+def lmonPush (m : LMon) : LEv → LMon
+  | .delay d => m.onDelay d
+  | .stop id => m.onStop id
+  | .advance dt => m.onSleep dt
+
+/-- monitor and model side by side; the flag says whether `fired` is observed after the event -/
+def lmonRun : List (LEv × Bool) → LMon → LState → Option String
+  | [], _, _ => none
+  | (e, o) :: r, m, s =>
+    if o then
+      match (lmonPush m e).onFired (llog (lstep s e)) with
+      | some c => some c
+      | none => lmonRun r ((lmonPush m e).observe (llog (lstep s e))) (lstep s e)
+    else lmonRun r (lmonPush m e) (lstep s e)
+
+theorem cnt_take_le (hist : List LEv) (k : Nat) : cnt (hist.take k) ≤ cnt hist := by
+  have h := cnt_append (hist.take k) (hist.drop k)
+  rw [List.take_append_drop] at h
+  omega
+
+theorem cnt_take_lt (hist : List LEv) (i j : Nat) (d : Int) (hi : hist[i]? = some (LEv.delay d))
+    (hij : i < j) : cnt (hist.take i) < cnt (hist.take j) := by
+  have h1 : hist.take (i + 1) = hist.take i ++ [LEv.delay d] := by
+    rw [List.take_add_one, hi]; rfl
+  have h2 : cnt (hist.take (i + 1)) = cnt (hist.take i) + 1 := by
+    rw [h1, cnt_append]; simp [cnt]
+  have h3 : cnt ((hist.take j).take (i + 1)) ≤ cnt (hist.take j) := cnt_take_le _ _
+  rw [List.take_take, Nat.min_eq_left (by omega)] at h3
+  omega
+
+theorem cnt_take_inj (hist : List LEv) (i j : Nat) (d d' : Int) (hi : hist[i]? = some (LEv.delay d))
+    (hj : hist[j]? = some (LEv.delay d')) (h : cnt (hist.take i) = cnt (hist.take j)) : i = j := by
+  rcases Nat.lt_trichotomy i j with hlt | heq | hgt
+  · have := cnt_take_lt hist i j d hi hlt; omega
+  · exact heq
+  · have := cnt_take_lt hist j i d' hj hgt; omega
+
+theorem cnt_take_lt_total (hist : List LEv) (i : Nat) (d : Int) (hi : hist[i]? = some (LEv.delay d)) :
+    cnt (hist.take i) < cnt hist := by
+  have hlen : i < hist.length := by
+    rcases List.getElem?_eq_some_iff.mp hi with ⟨h, _⟩; exact h
+  have := cnt_take_lt hist i hist.length d hi hlen
+  rw [List.take_of_length_le (Nat.le_refl _)] at this
+  exact this
+
+/-- what the monitor knows about timer `j` -/
+structure MTimerOK (hist : List LEv) (j : Nat) (t : LTimer) : Prop where
+  id_eq : t.id = j
+  pos : ∃ i, hist[i]? = some (LEv.delay t.d) ∧ cnt (hist.take i) = j ∧ lclock (hist.take i) = t.tc ∧
+    (t.stopped = none → ∀ k, i < k → hist[k]? ≠ some (LEv.stop j)) ∧
+    (∀ sv, t.stopped = some sv →
+      (∃ k, i < k ∧ hist[k]? = some (LEv.stop j) ∧ sv = lclock (hist.take k)) ∧
+      ∀ k, i < k → hist[k]? = some (LEv.stop j) → sv ≤ lclock (hist.take k))
+
+structure LSync (hist : List LEv) (m : LMon) (s : LState) : Prop where
+  model : s = lrun hist
+  now_eq : m.now = lclock hist
+  len : m.timers.length = cnt hist
+  tim : ∀ j t, m.timers[j]? = some t → MTimerOK hist j t
+  seen : ∀ x ∈ m.seen, x ∈ llog s
+
+theorem MTimerOK.snoc {hist j t} (e : LEv) (h : MTimerOK hist j t) (he : e ≠ LEv.stop j) :
+    MTimerOK (hist ++ [e]) j t := by
+  obtain ⟨i, hi, hc, htc, hn, hs⟩ := h.pos
+  have hil : i < hist.length := by
+    rcases List.getElem?_eq_some_iff.mp hi with ⟨h', _⟩; exact h'
+  refine ⟨h.id_eq, i, get_snoc_old _ _ _ hi, by rw [take_snoc _ _ (by omega)]; exact hc,
+    by rw [take_snoc _ _ (by omega)]; exact htc, ?_, ?_⟩
+  · intro hnone k hk hx
+    rcases get_snoc_cases _ _ _ hx with ⟨_, hx'⟩ | ⟨_, hxe⟩
+    · exact hn hnone k hk hx'
+    · exact he hxe.symm
+  · intro sv hsv
+    obtain ⟨⟨k, hk, hxk, hsvk⟩, hall⟩ := hs sv hsv
+    have hkl : k < hist.length := by
+      rcases List.getElem?_eq_some_iff.mp hxk with ⟨h', _⟩; exact h'
+    refine ⟨⟨k, hk, get_snoc_old _ _ _ hxk, by rw [take_snoc _ _ (by omega)]; exact hsvk⟩, ?_⟩
+    intro k' hk' hx'
+    rcases get_snoc_cases _ _ _ hx' with ⟨hkl', hx''⟩ | ⟨_, hxe⟩
+    · rw [take_snoc _ _ (by omega)]; exact hall k' hk' hx''
+    · exact absurd hxe.symm he
+
+theorem lstep_fired_mono (s : LState) (e : LEv) : ∀ fr ∈ s.fired, fr ∈ (lstep s e).fired := by
+  intro fr hfr
+  rw [lstep_eq]
+  have hd : (lpre s e).fired = s.fired := by
+    cases e with
+    | delay d => rfl
+    | stop id => simp only [lpre]; split <;> rfl
+    | advance dt => rfl
+  simp only [LState.settle, List.mem_append]
+  left; rw [hd]; exact hfr
+
+theorem lsync_init : LSync [] {} {} where
+  model := rfl
+  now_eq := rfl
+  len := rfl
+  tim := by intro j t h; simp at h
+  seen := by intro x h; cases h
+
+theorem lsync_push {hist m s} (e : LEv) (h : LSync hist m s) :
+    LSync (hist ++ [e]) (lmonPush m e) (lstep s e) := by
+  have hseen : ∀ x ∈ m.seen, x ∈ llog (lstep s e) := by
+    intro x hx
+    have := h.seen x hx
+    simp only [llog, List.mem_map] at this ⊢
+    obtain ⟨fr, hfr, rfl⟩ := this
+    exact ⟨fr, lstep_fired_mono s e fr hfr, rfl⟩
+  have hmodel : lstep s e = lrun (hist ++ [e]) := by
+    rw [h.model]; simp [lrun, List.foldl_append]
+  cases e with
+  | delay d =>
+    refine ⟨hmodel, by simp [lmonPush, LMon.onDelay, lclock_snoc, h.now_eq, LEv.dt],
+      by simp [lmonPush, LMon.onDelay, cnt_append, cnt, h.len], ?_, hseen⟩
+    intro j t hj
+    simp only [lmonPush, LMon.onDelay] at hj
+    by_cases hjl : j < m.timers.length
+    · rw [List.getElem?_append_left hjl] at hj
+      exact (h.tim j t hj).snoc _ (by intro h'; cases h')
+    · rw [List.getElem?_append_right (by omega)] at hj
+      have hj0 : j - m.timers.length = 0 := by
+        rcases List.getElem?_eq_some_iff.mp hj with ⟨hl, _⟩
+        simp at hl; omega
+      rw [hj0] at hj
+      simp only [List.getElem?_cons_zero, Option.some.injEq] at hj
+      subst hj
+      have hjeq : j = m.timers.length := by omega
+      refine ⟨hjeq.symm, hist.length, get_snoc_last _ _, by rw [take_snoc_full, ← h.len]; exact hjeq.symm,
+        by rw [take_snoc_full]; exact h.now_eq.symm, ?_, by intro sv hsv; cases hsv⟩
+      intro _ k hk
+      rw [get_snoc_beyond _ _ hk]
+      intro h'; cases h'
+  | stop id =>
+    refine ⟨hmodel, by simp [lmonPush, LMon.onStop, lclock_snoc, h.now_eq, LEv.dt],
+      by simp [lmonPush, LMon.onStop, cnt_append, cnt, h.len], ?_, hseen⟩
+    intro j t hj
+    simp only [lmonPush, LMon.onStop, List.getElem?_map] at hj
+    cases hj0 : m.timers[j]? with
+    | none => rw [hj0] at hj; cases hj
+    | some t0 =>
+      rw [hj0] at hj
+      simp only [Option.map_some, Option.some.injEq] at hj
+      have h0 := h.tim j t0 hj0
+      by_cases hc : (t0.id == id && t0.stopped.isNone) = true
+      · rw [if_pos hc] at hj
+        subst hj
+        simp only [Bool.and_eq_true, beq_iff_eq, Option.isNone_iff_eq_none] at hc
+        obtain ⟨hid, hnone⟩ := hc
+        have hjid : j = id := by rw [← h0.id_eq, hid]
+        obtain ⟨i, hi, hcn, htc, hn, _⟩ := h0.pos
+        have hil : i < hist.length := by
+          rcases List.getElem?_eq_some_iff.mp hi with ⟨h', _⟩; exact h'
+        refine ⟨h0.id_eq, i, get_snoc_old _ _ _ hi, by rw [take_snoc _ _ (by omega)]; exact hcn,
+          by rw [take_snoc _ _ (by omega)]; exact htc, (by intro h'; cases h'), ?_⟩
+        intro sv hsv
+        simp only [Option.some.injEq] at hsv
+        subst hsv
+        refine ⟨⟨hist.length, hil, by rw [get_snoc_last, hjid], by rw [take_snoc_full]; exact h.now_eq⟩, ?_⟩
+        intro k hk hx
+        rcases get_snoc_cases _ _ _ hx with ⟨_, hx'⟩ | ⟨hkl, _⟩
+        · exact absurd hx' (hn hnone k hk)
+        · rw [hkl, take_snoc_full, h.now_eq]; exact Int.le_refl _
+      · rw [if_neg hc] at hj
+        subst hj
+        by_cases hjid : j = id
+        · -- already stopped: the new stop comes later
+          have hst : t0.stopped ≠ none := by
+            intro hnone
+            apply hc
+            simp [h0.id_eq, hjid, hnone]
+          obtain ⟨i, hi, hcn, htc, hn, hs⟩ := h0.pos
+          have hil : i < hist.length := by
+            rcases List.getElem?_eq_some_iff.mp hi with ⟨h', _⟩; exact h'
+          refine ⟨h0.id_eq, i, get_snoc_old _ _ _ hi, by rw [take_snoc _ _ (by omega)]; exact hcn,
+            by rw [take_snoc _ _ (by omega)]; exact htc, fun h' => absurd h' hst, ?_⟩
+          intro sv hsv
+          obtain ⟨⟨k, hk, hxk, hsvk⟩, hall⟩ := hs sv hsv
+          have hkl : k < hist.length := by
+            rcases List.getElem?_eq_some_iff.mp hxk with ⟨h', _⟩; exact h'
+          refine ⟨⟨k, hk, get_snoc_old _ _ _ hxk, by rw [take_snoc _ _ (by omega)]; exact hsvk⟩, ?_⟩
+          intro k' hk' hx'
+          rcases get_snoc_cases _ _ _ hx' with ⟨hkl', hx''⟩ | ⟨hkl', _⟩
+          · rw [take_snoc _ _ (by omega)]; exact hall k' hk' hx''
+          · rw [hkl', take_snoc_full, hsvk]; exact lclock_take_le _ _
+        · exact h0.snoc _ (by intro h'; cases h'; exact hjid rfl)
+  | advance dt =>
+    refine ⟨hmodel, by simp [lmonPush, LMon.onSleep, lclock_snoc, h.now_eq, LEv.dt],
+      by simp [lmonPush, LMon.onSleep, cnt_append, cnt, h.len], ?_, hseen⟩
+    intro j t hj
+    exact (h.tim j t hj).snoc _ (by intro h'; cases h')
+
+theorem pairwise_of_once : ∀ (l : List LFire), (∀ i, firedAt i l ≤ 1) →
+    l.Pairwise (fun a b => a.idx ≠ b.idx) := by
+  intro l
+  induction l with
+  | nil => intro _; exact List.Pairwise.nil
+  | cons a r ih =>
+    intro h
+    rw [List.pairwise_cons]
+    constructor
+    · intro b hb heq
+      have h1 := h a.idx
+      simp only [firedAt, List.countP_cons, beq_self_eq_true, if_true] at h1
+      have : 0 < r.countP (fun fr => fr.idx == a.idx) :=
+        List.countP_pos_iff.mpr ⟨b, hb, by simp [heq]⟩
+      omega
+    · apply ih
+      intro i
+      have := h i
+      simp only [firedAt, List.countP_cons] at this ⊢
+      omega
+
+theorem nodup_of_pairwise : ∀ (l : List (Int × Nat × Int)),
+    l.Pairwise (fun a b => a.2.1 ≠ b.2.1) → LMon.onFired.nodup l = true := by
+  intro l
+  induction l with
+  | nil => intro _; rfl
+  | cons x r ih =>
+    intro h
+    rw [List.pairwise_cons] at h
+    rw [LMon.onFired.nodup]
+    simp only [Bool.and_eq_true, Bool.not_eq_true', List.any_eq_false, beq_iff_eq]
+    exact ⟨fun y hy heq => h.1 y hy heq.symm, ih h.2⟩
+
+theorem llog_ids_distinct (hist : List LEv) :
+    (llog (lrun hist)).Pairwise (fun a b => a.2.1 ≠ b.2.1) := by
+  have hI := lrun_invh hist
+  simp only [llog, List.pairwise_map]
+  refine List.Pairwise.imp_of_mem ?_ (pairwise_of_once _ (fun i => by have := hI.once i; omega))
+  intro a b ha hb hne heq
+  have hA := hI.fired a ha
+  have hB := hI.fired b hb
+  apply hne
+  exact cnt_take_inj hist a.idx b.idx a.d b.d hA.isDelay hB.isDelay (by rw [← hA.id_eq, ← hB.id_eq]; exact heq)
+
+theorem lonFired_accepts {hist m s} (h : LSync hist m s) : m.onFired (llog s) = none := by
+  have hI := lrun_invh hist
+  rw [← h.model] at hI
+  unfold LMon.onFired
+  split
+  · rename_i hc
+    exfalso
+    rw [h.model, nodup_of_pairwise _ (llog_ids_distinct hist)] at hc
+    simp at hc
+  · split
+    · rename_i hc
+      exfalso
+      have : (m.seen.all fun o => (llog s).contains o) = true := by
+        rw [List.all_eq_true]; intro x hx; exact List.contains_iff_mem.mpr (h.seen x hx)
+      rw [this] at hc; simp at hc
+    · dsimp only
+      split
+      · rename_i val hbad
+        exfalso
+        have hmem := List.mem_of_find?_eq_some hbad
+        have hp := List.find?_some hbad
+        obtain ⟨f, id, tc⟩ := val
+        simp only [llog, List.mem_map] at hmem
+        obtain ⟨fr, hfr, hfe⟩ := hmem
+        simp only [Prod.mk.injEq] at hfe
+        obtain ⟨rfl, rfl, rfl⟩ := hfe
+        have hF := hI.fired fr hfr
+        dsimp only at hp
+        split at hp
+        · rename_i hnone
+          have hlt : fr.id < m.timers.length := by
+            rw [h.len, hF.id_eq]; exact cnt_take_lt_total hist fr.idx fr.d hF.isDelay
+          have hget := List.getElem?_eq_getElem hlt
+          have := (List.find?_eq_none.mp hnone) _ (List.mem_of_getElem? hget)
+          exact this (by simp [(h.tim _ _ hget).id_eq])
+        · rename_i t hsome
+          have htm := List.mem_of_find?_eq_some hsome
+          have htid := List.find?_some hsome
+          simp only [beq_iff_eq] at htid
+          obtain ⟨j, hj⟩ := List.getElem?_of_mem htm
+          have hT := h.tim j t hj
+          obtain ⟨i, hi, hcn, htc, _, hs⟩ := hT.pos
+          have hij : i = fr.idx :=
+            cnt_take_inj hist i fr.idx t.d fr.d hi hF.isDelay (by rw [hcn, ← hF.id_eq, ← htid, hT.id_eq])
+          subst hij
+          have hd : t.d = fr.d := by
+            have := hF.isDelay; rw [hi] at this
+            simp only [Option.some.injEq, LEv.delay.injEq] at this; exact this
+          have htc' : t.tc = fr.tc := by rw [← htc, hF.callTime]
+          have hex := hF.exact
+          have hle := hF.le_now
+          have h1 : fr.tc + fr.d ≤ fr.f := by omega
+          rw [h.now_eq, ← hI.now_eq] at hp
+          cases hst : t.stopped with
+          | none =>
+            rw [hst] at hp
+            simp [htc', hd, hle, h1] at hp
+          | some sv =>
+            obtain ⟨⟨k, hk, hxk, hsvk⟩, _⟩ := hs sv hst
+            have h2 : fr.f ≤ sv := by
+              have := hF.nostop k hk (by rw [hF.id_eq, hcn]; exact hxk)
+              omega
+            rw [hst] at hp
+            simp [htc', hd, hle, h1, h2] at hp
+      · split
+        · rename_i val hmiss
+          exfalso
+          have htm := List.mem_of_find?_eq_some hmiss
+          have hp := List.find?_some hmiss
+          obtain ⟨j, hj⟩ := List.getElem?_of_mem htm
+          have hT := h.tim j val hj
+          obtain ⟨i, hi, hcn, htc, hn, hs⟩ := hT.pos
+          simp only [Bool.and_eq_true, decide_eq_true_eq, Bool.not_eq_true'] at hp
+          obtain ⟨⟨hdl, hst⟩, hnot⟩ := hp
+          rw [h.now_eq] at hdl
+          have hcomp := delay_completeness hist i val.d hi (by
+            intro k hk hxk
+            rw [hcn] at hxk
+            cases hsv : val.stopped with
+            | none => exact absurd hxk (hn hsv k hk)
+            | some sv =>
+              rw [hsv] at hst
+              simp only [decide_eq_true_eq] at hst
+              have := (hs sv hsv).2 k hk hxk
+              rw [htc]; omega) (by rw [htc]; exact hdl)
+          obtain ⟨fr, hfr, hfi, _⟩ := hcomp.2
+          rw [← h.model] at hfr
+          have hF := hI.fired fr hfr
+          have : ((llog s).any fun o => o.2.1 == val.id) = true := by
+            rw [List.any_eq_true]
+            refine ⟨(fr.f, fr.id, fr.tc), by simp only [llog, List.mem_map]; exact ⟨fr, hfr, rfl⟩, ?_⟩
+            simp only [beq_iff_eq]
+            rw [hF.id_eq, hfi, hcn, hT.id_eq]
+          rw [this] at hnot
+          cases hnot
+        · rfl
+
+theorem lmonRun_accepts : ∀ (tr : List (LEv × Bool)) (hist : List LEv) (m : LMon) (s : LState),
+    LSync hist m s → lmonRun tr m s = none := by
+  intro tr
+  induction tr with
+  | nil => intro hist m s _; rfl
+  | cons x r ih =>
+    intro hist m s h
+    obtain ⟨e, o⟩ := x
+    have hp := lsync_push e h
+    cases o with
+    | false =>
+      simp only [lmonRun, Bool.false_eq_true, if_false]
+      exact ih _ _ _ hp
+    | true =>
+      simp only [lmonRun, if_true, lonFired_accepts hp]
+      exact ih _ _ _
+        { model := hp.model, now_eq := hp.now_eq, len := hp.len, tim := hp.tim, seen := fun x hx => hx }
+
+/-- **The delay monitor accepts the model**: for every history of `Delay` / `Stop` / passages of time
+and every choice of observation points, `LMon` — fed the events and shown the model's execution log —
+reports no violated clause (`at-most-once`, `log-grows-only`, `never-early-and-not-after-stop`,
+`does-run`). -/
+theorem lmon_accepts_model (tr : List (LEv × Bool)) : lmonRun tr {} {} = none :=
+  lmonRun_accepts tr [] _ _ lsync_init
+
+example : lmonRun [(.delay 5, true), (.delay (-3), true), (.advance 4, true), (.stop 0, true),
+    (.stop 1, true), (.delay 2, false), (.advance 10, true)] {} {} = none := by decide
 
 end GoguVerif.Theorems.C20
